@@ -174,8 +174,9 @@ class Engine:
             else:
                 mr = T.between(0, 90)
             mr = max(0, mr)
-            mr_frac = T.choice([0, 0.25, -0.25, 0.4])
+            mr_frac = T.choice([0, 0.25, -0.25, 0.4, 0.5, 0.5])
         exact = bool(T.draw(2))
+        pre_open = T.weighted([(5, 0), (1, 1), (1, 2), (1, 3)])
         record = bool(T.draw(2)) if prop == "C19" else (T.draw(4) == 0)
         use_recorder_class = bool(T.draw(2))
         ops = []
@@ -195,7 +196,7 @@ class Engine:
                 "length": length, "max_read_samples": mr,
                 "max_read_frac": mr_frac, "record": record,
                 "recorder_class": use_recorder_class, "ops": ops,
-                "extra_reads": sc_extra}
+                "extra_reads": sc_extra, "pre_open_reads": pre_open}
 
     # ------------------------------------------------------------- execute
     def _dur(self, samples, sr, exact):
@@ -258,12 +259,12 @@ class Engine:
             max_read = (max_samples + sc["max_read_frac"]) / sr
             if max_read < 0:
                 max_read = 0.0
-            if round(max_read * sr) != max_samples:
-                max_samples = round(max_read * sr)
-            # keep away from the .5 tie of round()
+            # the statement's formula, literally (Python round: exact .5
+            # ties go to the even neighbour)
+            max_samples = round(max_read * sr)
             fr = max_read * sr - int(max_read * sr)
-            if abs(fr - 0.5) < 1e-6:
-                return self._skip(out)
+            if fr == 0.5:
+                out["probes"]["max_read_exact_tie"] = 1
 
         tmp = None
         kind = sc["kind"]
@@ -349,6 +350,16 @@ class Engine:
 
             m_hop = hop if sc["hop_mode"] == "lt" else None
             model = Model(data, bps, block, m_hop, max_samples)
+            # reads before open(): outcome not judged (must not hand out
+            # data), but they must leave no trace once the reader is opened
+            for _ in range(sc.get("pre_open_reads", 0)):
+                st_, got_ = self._call(reader.read)
+                trace.append(["read-before-open", st_, _short(got_)])
+                if st_ == "ok" and got_ is not None:
+                    return V(prop + ".2", "read() before open() returned %s"
+                             % _short(got_), prop + ".2:data_before_open")
+                out["faults"]["read_before_open"] = \
+                    out["faults"].get("read_before_open", 0) + 1
             reader.open()
             nonempty = 0
             after_end = 0
@@ -365,7 +376,8 @@ class Engine:
             if v is not None:
                 return v
             out["sig"] = mix(kind, sw, ch, block, hop, max_samples, length,
-                             record, tuple(sc["ops"]), sc["extra_reads"])
+                             record, tuple(sc["ops"]), sc["extra_reads"],
+                             sc.get("pre_open_reads", 0))
             out["shape"] = "%s/%s/%s%s" % (
                 kind, "ovl" if m_hop else "fixed",
                 "max" if max_samples is not None else "nomax",
